@@ -55,7 +55,7 @@ def main():
                 continue
             sid = f"{pid}-{tag}{name}"
             meta = {"id": sid, "property": pid, "repo_head": head, "source": "independent sub-agent given only the property text"}
-            sh(f"git -C {wt} checkout -- . && git -C {wt} clean -fdq")
+            sh(f"git -C {wt} reset -q --hard && git -C {wt} clean -fdq")
             env = dict(os.environ, PYTHONPATH=wt)
             demo = os.path.join(d, "demo.py")
             c0 = sh(f"cd {wt} && /venv/bin/python {demo}", env=env, timeout=600)
